@@ -724,7 +724,7 @@ func c03R15(ic *IC, r *Report) {
 }
 
 func init() {
-	ruleText["R03.17"] = "in the exact-result check no acceptance (return nil) depends on the operator: the guards of every return nil mention neither the operator token nor the node's action (the lookup of the token excepted) - every operator's exact result goes to the representability function (MinInt / -1 overflows too)"
+	ruleText["R03.17"] = "in the exact-result check no acceptance (return nil) depends on the operator or on the magnitude of the operands: the guards of every return nil mention neither the operator token nor the node's action (the lookup of the token excepted) nor a bit length, sign, comparison or type size - every operator's exact result goes to the representability function (MinInt / -1 overflows too)"
 	ruleText["R03.18"] = "a constant folder gives its node a fresh value: every assignment to node.rval in a function of the constOp table (and their helpers) is reflect.New(T).Elem() or reflect.ValueOf(...), never an operand's rval - the operand is the value of a named constant shared by all its uses"
 	ruleText["R03.19"] = "in the unsigned case of the representability function every return that can be true is dominated by a sign or Uint64Val test of the constant: a bit-length test alone accepts negative constants (BitLen(-1) is 1)"
 }
@@ -798,6 +798,11 @@ func c03R17to19(ic *IC, x *c02ctx, r *Report) {
 			}
 			for _, cond := range conds {
 				g := pathGuard{cond: cond}
+				// an acceptance decided on the magnitude of the operands (a fast path "small operands
+				// cannot overflow") is not a validity test either
+				for _, c := range callsIn(info, cond, true, "go/constant.BitLen", "go/constant.Sign", "go/constant.Compare", "reflect.Type.Bits", "reflect.Type.Size") {
+					bad = types.ExprString(cond) + " (a test of the operands' magnitude: " + types.ExprString(c.Fun) + ")"
+				}
 				ast.Inspect(g.cond, func(q ast.Node) bool {
 					switch e := q.(type) {
 					case *ast.Ident:
@@ -813,7 +818,7 @@ func c03R17to19(ic *IC, x *c02ctx, r *Report) {
 				})
 			}
 			r.Check(bad == "", "R03.17", fmt.Sprintf("%s/acceptance#%d/independent-of-the-operator", name, k), ic.pos(rs.Pos()), "the acceptance does not depend on the operator",
-				name+" accepts the constant expression without computing its exact result under "+bad+", a condition on the operator: an operator assumed not to grow (quotient, remainder, bitwise) can still leave the type - int8(-128) / int8(-1) is 128 - and is then folded by wrapping machine arithmetic")
+				name+" accepts the constant expression without computing its exact result under "+bad+", a condition on the operator or on the size of the operands: an operator or operand assumed harmless (uint8(3) - uint8(4) has small operands and no representable result), or an operator assumed not to grow (quotient, remainder, bitwise) can still leave the type - int8(-128) / int8(-1) is 128 - and is then folded by wrapping machine arithmetic")
 			return true
 		})
 	}
@@ -992,5 +997,80 @@ func c03R17to19(ic *IC, x *c02ctx, r *Report) {
 		}
 		r.Check(len(bad) == 0, "R03.19", funcName(fi.Decl)+"/unsigned/negative-constants-rejected", ic.pos(unsignedCase.Pos()), "every accepting return of the unsigned case follows a sign test",
 			"in the unsigned case of "+funcName(fi.Decl)+" "+strings.Join(bad, "; ")+" can accept the constant without a sign (or Uint64Val) test on the way: the bit length of a negative number is that of its magnitude, so uint8(-1) is accepted (and evaluates to 255) instead of being rejected")
+	}
+}
+
+func init() {
+	ruleText["R03.21"] = "a constant folder obtains its result from go/constant: the value a function of the constOp table stores for a constant operand is the result of constant.BinaryOp, UnaryOp, Shift or Compare called in the folder, or of an in-package helper all of whose returns are such calls - a helper answering some operands itself (a shortcut for large shift counts) replaces the exact result by its author's arithmetic"
+}
+
+// c03R21: round-7 seed. The shift folders were moved onto a helper constShift returning 0 when the
+// count reaches the bit length: -1 >> 1 folded to 0 instead of -1.
+func c03R21(ic *IC, x *c02ctx, r *Report) {
+	info := ic.Info
+	exact := []string{"go/constant.BinaryOp", "go/constant.UnaryOp", "go/constant.Shift", "go/constant.Compare"}
+	seen := map[*types.Func]bool{}
+	var folders []*types.Func
+	for _, f := range x.constOp {
+		if f != nil && !seen[f] {
+			seen[f] = true
+			folders = append(folders, f)
+		}
+	}
+	sort.Slice(folders, func(i, j int) bool { return folders[i].Name() < folders[j].Name() })
+	n := 0
+	for _, f := range folders {
+		fi := ic.G.Funcs[f]
+		if fi == nil || fi.Decl.Body == nil {
+			continue
+		}
+		// the clause for constant operands: the value it computes
+		ast.Inspect(fi.Decl.Body, func(q ast.Node) bool {
+			as, ok := q.(*ast.AssignStmt)
+			if !ok || len(as.Lhs) != 1 || len(as.Rhs) != 1 || as.Tok != token.DEFINE {
+				return true
+			}
+			t := info.TypeOf(as.Lhs[0])
+			if t == nil || types.TypeString(t, nil) != "go/constant.Value" {
+				return true
+			}
+			c, ok := unparen(as.Rhs[0]).(*ast.CallExpr)
+			if !ok {
+				return true
+			}
+			if isCallTo(info, c, exact...) {
+				n++
+				return true
+			}
+			h, ok := calleeOf(info, c).(*types.Func)
+			if !ok || h.Pkg() != ic.Pk.Types {
+				return true
+			}
+			hd := ic.G.Funcs[h]
+			if hd == nil || hd.Decl.Body == nil || h.Name() == "vConstantValue" || h.Name() == "constantOf" {
+				return true
+			}
+			n++
+			var bad []string
+			ast.Inspect(hd.Decl.Body, func(z ast.Node) bool {
+				rs, ok := z.(*ast.ReturnStmt)
+				if !ok || len(rs.Results) != 1 {
+					return true
+				}
+				if rc, ok := unparen(rs.Results[0]).(*ast.CallExpr); ok && isCallTo(info, rc, exact...) {
+					return true
+				}
+				bad = append(bad, "return "+types.ExprString(rs.Results[0])+" at "+ic.pos(rs.Pos()))
+				return true
+			})
+			r.Check(len(bad) == 0, "R03.21", f.Name()+"/exact-result-from-go-constant:"+h.Name(), ic.pos(as.Pos()), "every return of the helper is a go/constant operation",
+				"the constant folder "+f.Name()+" takes its result from "+h.Name()+", which answers some operands itself ("+strings.Join(bad, "; ")+") instead of asking go/constant: a right shift of a negative constant by at least its bit length is -1, not 0 (-1 >> 1, -8 >> 4)")
+			return true
+		})
+	}
+	if n < 8 {
+		r.Errorf("R03.21: only %d exact results computed by the constant folders found", n)
+	} else {
+		r.Pass("R03.21", "folders/exact-results-from-go-constant", "", fmt.Sprintf("%d exact results, each from a go/constant operation (or a helper returning only such operations)", n))
 	}
 }
